@@ -1,6 +1,6 @@
 (* Proofs about the zstdmt protocol model (MtModel.v): invariants over ALL schedules (Sched.run), all call
    programs, all payload oracles. *)
-From Coq Require Import List NArith ZArith Bool Arith Lia.
+From Coq Require Import List NArith ZArith Bool Arith Lia Sorting.Sorted.
 Import ListNotations.
 From ZV.Conc Require Import Sched SchedLemmas MtModel.
 Local Open Scope N_scope.
@@ -131,7 +131,8 @@ Proof.
   - destruct (alldone (mt s)); [eapply eq_swp_trans; [|apply swp_init_params]; repeat split|].
     destruct (_ <? _); [repeat split|].
     eapply eq_swp_trans; [|apply swp_rel_scan_k; intros; apply swp_init_params]. repeat split.
-  - destruct (ended (mt s) && is_continue e).
+  - destruct (alldone (mt s) && negb (ended (mt s))); [apply swp_stop_ops|].
+    destruct (ended (mt s) && is_continue e).
     + assert (H0 : eq_swp s (record_res RErr (set_cl (mkCl (c_pc (cl s)) r e e false i o i o (c_use (cl s)) (c_fp (cl s)) (c_res (cl s)))
              (if ended (mt s) && (0 <? i) then set_gh (mkG (g_out (gh s)) (g_fin (gh s)) (g_ck (gh s)) true) s else s)))).
       { destruct (ended (mt s) && (0 <? i)); repeat split. }
@@ -174,4 +175,119 @@ Proof.
   unfold flush_body. destruct (j_err _); [apply swp_wait_all|].
   repeat match goal with |- eq_swp _ (if ?b then _ else _) => destruct b end;
   (eapply eq_swp_trans; [|first [apply swp_set_cpc|apply swp_complete_job|apply swp_gen_return|apply swp_flush_return]]); repeat split.
+Qed.
+
+(* ------------------------------------------------------------------ *)
+(* effect of a caller step on serial state / workers / pools            *)
+
+Ltac inv_some H := match type of H with Some _ = Some _ => inversion H; subst; clear H end.
+
+Definition ser_same (a b : ser) := s_next b = s_next a /\ s_log b = s_log a /\ s_skip b = s_skip a.
+
+Ltac swp_solve :=
+  first [ apply eq_swp_refl
+        | solve [repeat split]
+        | solve [eapply eq_swp_trans;
+                  [|first [apply swp_after_inuse|apply swp_scan_inuse|apply swp_move_prefix|apply swp_hand_out|apply swp_flush_body
+                          |apply swp_complete_job|apply swp_wait_all|apply swp_rel_scan|apply swp_finish_op|apply swp_set_cpc]];
+                  repeat split] ].
+
+(* every caller step except the pool/serial accesses themselves leaves (sr, ws, pl) alone: shape of each step *)
+Lemma caller_step_sr cfg w s s' :
+  caller_step cfg w s = Some s' ->
+  ser_same (sr s) (sr s') \/ (c_pc (cl s) = CInitBuf /\ s_next (sr s') = 0 /\ s_log (sr s') = [] /\ s_skip (sr s') = false).
+Proof.
+  unfold caller_step. intros H.
+  destruct (c_pc (cl s)) eqn:Epc; try discriminate;
+  repeat match type of H with (if ?b then _ else _) = _ => destruct b end; inv_some H.
+  all: try (left; match goal with |- ser_same _ (sr ?x) =>
+        let H := fresh in assert (H : eq_swp s x) by swp_solve; destruct H as (H & _ & _); rewrite H; repeat split end; fail).
+  all: try (left; unfold ser_same;
+            assert (Hs : forall a b, eq_swp a b -> sr b = sr a) by (intros a b (Hx & _); exact Hx);
+            match goal with |- context[sr ?x] =>
+              let H := fresh in
+              assert (H : sr x = sr s) by
+                (first [reflexivity
+                       | etransitivity; [apply Hs; first [apply swp_complete_job|apply swp_rel_scan|apply swp_finish_op]|reflexivity]]);
+              rewrite H; repeat split end; fail).
+  - right. split; [reflexivity|]. repeat split.
+  - right. split; [reflexivity|].
+    match goal with |- context[sr (finish_op ?c ?x ?r)] => destruct (swp_finish_op c x r) as (Hx & _ & _); rewrite Hx end.
+    repeat split.
+  - left. match goal with |- context[sr (finish_op ?c ?x ?r)] => destruct (swp_finish_op c x r) as (Hx & _ & _); rewrite Hx end.
+    repeat split.
+Qed.
+
+(* ------------------------------------------------------------------ *)
+(* mt_serial_order, part 1: the serial sections execute in strictly increasing job-id order             *)
+
+Definition log_ids (l : list (N * N * N)) : list N := map (fun x => fst (fst x)) l.
+
+Definition SerSorted (s : state) : Prop :=
+  StronglySorted N.lt (log_ids (s_log (sr s))) /\ Forall (fun i => i < s_next (sr s)) (log_ids (s_log (sr s))).
+
+Lemma sorted_snoc l x : StronglySorted N.lt l -> Forall (fun i => i < x) l -> StronglySorted N.lt (l ++ [x]).
+Proof.
+  induction l; cbn; intros Hs Hf; [repeat constructor|].
+  inversion Hs; subst. inversion Hf; subst. constructor; [apply IHl; auto|].
+  apply Forall_app; split; auto.
+Qed.
+
+Lemma Forall_lt_mono l (a b : N) : a <= b -> Forall (fun i => i < a) l -> Forall (fun i => i < b) l.
+Proof. intros Hab Hf. eapply Forall_impl; [|exact Hf]. cbn; intros; lia. Qed.
+
+(* the wake-up helpers only move the caller's pc *)
+Lemma wake_ldm_proj s : mt (wake_caller_ldm s) = mt s /\ jobs (wake_caller_ldm s) = jobs s /\ sr (wake_caller_ldm s) = sr s
+  /\ pl (wake_caller_ldm s) = pl s /\ ws (wake_caller_ldm s) = ws s /\ gh (wake_caller_ldm s) = gh s.
+Proof. unfold wake_caller_ldm. destruct (c_pc (cl s)); repeat split. Qed.
+Lemma wake_job_proj cfg k s : mt (wake_caller_job cfg k s) = mt s /\ jobs (wake_caller_job cfg k s) = jobs s /\ sr (wake_caller_job cfg k s) = sr s
+  /\ pl (wake_caller_job cfg k s) = pl s /\ ws (wake_caller_job cfg k s) = ws s /\ gh (wake_caller_job cfg k s) = gh s.
+Proof. unfold wake_caller_job. destruct (c_pc (cl s)); try (repeat split; fail); destruct (Nat.eqb _ _); repeat split. Qed.
+
+Lemma ser_sorted_step cfg t w s s' : SerSorted s -> step cfg t w s = Some s' -> SerSorted s'.
+Proof.
+  intros (Hs & Hf) H. destruct t as [|t]; cbn [step] in H.
+  - destruct (caller_step_sr _ _ _ _ H) as [(E1 & E2 & _)|(_ & E1 & E2 & _)]; unfold SerSorted.
+    + rewrite E1, E2. auto.
+    + rewrite E1, E2. split; constructor.
+  - unfold worker_step in H. destruct (nth_error (ws s) t) as [wl|]; [|discriminate].
+    destruct (w_pc wl); try discriminate;
+    repeat match type of H with
+           | (if ?b then _ else _) = _ => destruct b eqn:?
+           | match ?x with Some _ => _ | None => _ end = _ => destruct x
+           end; inv_some H; unfold SerSorted; cbn [sr set_w set_ws set_pl set_job set_jobs set_sr];
+    repeat match goal with |- context[sr (wake_caller_ldm ?x)] => replace (sr (wake_caller_ldm x)) with (sr x) by (symmetry; apply wake_ldm_proj) end;
+    repeat match goal with |- context[sr (wake_caller_job ?c ?k ?x)] => replace (sr (wake_caller_job c k x)) with (sr x) by (symmetry; apply wake_job_proj) end;
+    cbn [sr set_w set_ws set_pl set_job set_jobs set_sr s_log s_next]; auto.
+    all: try (split; [|eapply Forall_lt_mono; [|exact Hf]; lia]; exact Hs).
+    all: try (match goal with |- context[s_next (sr ?s0) <=? ?x] => destruct (s_next (sr s0) <=? x) eqn:El end;
+              [apply N.leb_le in El;
+               repeat match goal with |- context[sr (wake_caller_ldm ?x)] => replace (sr (wake_caller_ldm x)) with (sr x) by (symmetry; apply wake_ldm_proj) end;
+               cbn [sr set_w set_ws set_pl set_job set_jobs set_sr s_log s_next];
+               split; [exact Hs|eapply Forall_lt_mono; [|exact Hf]; lia]
+              |split; auto]; fail).
+    all: destruct (s_next (sr s) =? j_id (getj s (w_slot wl))) eqn:Em; destruct (ldm (mt s)); cbn [andb];
+      repeat match goal with |- context[sr (wake_caller_ldm ?x)] => replace (sr (wake_caller_ldm x)) with (sr x) by (symmetry; apply wake_ldm_proj) end;
+      cbn [sr set_w set_ws set_pl set_job set_jobs set_sr s_log s_next].
+    all: try (split; [exact Hs|eapply Forall_lt_mono; [|exact Hf]; lia]).
+    all: apply N.eqb_eq in Em; unfold log_ids; rewrite map_app; cbn [map fst]; fold (log_ids (s_log (sr s))); rewrite <- Em;
+      (split; [apply sorted_snoc; auto|apply Forall_app; split; [eapply Forall_lt_mono; [|exact Hf]; lia|constructor; [lia|constructor]]]).
+Qed.
+
+Lemma ser_sorted_init cfg ops : SerSorted (init cfg ops).
+Proof.
+  unfold init. destruct (swp_start_ops cfg ops (mkS (mkMt 0 0 false false true 0 0 false 0 0 0 0 1 0 false false false [] 0 0 0 0)
+    (repeat job0 (N.to_nat (mask cfg) + 1)) (mkSer 0 [] false win0 win0)
+    (mkPl None 0 0 (2 * N.of_nat (c_nbw cfg) + 3) 1 (N.of_nat (c_nbw cfg)) 0 (N.of_nat (c_nbw cfg)) false)
+    (mkCl CDone [] EContinue EContinue false 0 0 0 0 (0, 0) fp0 []) (repeat w0 (c_nbw cfg)) (mkG [] [] [] false))) as (H & _ & _).
+  unfold SerSorted. rewrite H. cbn. split; constructor.
+Qed.
+
+(* all schedules *)
+Theorem serial_sections_in_job_order cfg ops sched :
+  SerSorted (run state (step cfg) sched (init cfg ops)).
+Proof.
+  apply (run_invariant state (step cfg) SerSorted).
+  - intros s t w s' Hi Hst. eapply ser_sorted_step; eauto.
+  - apply ser_sorted_init.
 Qed.
